@@ -487,7 +487,7 @@ pub fn def() -> PropertyDef {
             Family { name: "conda-condu-onceo", max_len: 200, quick: 80_000, thorough: 2_000_000, run: run_family },
             Family { name: "matcha-matchu", max_len: 96, quick: 60_000, thorough: 1_500_000, run: run_match },
             Family { name: "fd-heads", max_len: 120, quick: 60_000, thorough: 1_500_000, run: run_fd },
-            Family { name: "scale", max_len: 48, quick: 8_000, thorough: 150_000, run: run_scale },
+            Family { name: "scale", max_len: 48, quick: 8_000, thorough: 80_000, run: run_scale },
         ],
         fixed: vec![Fixed { name: "condu-vs-conda-head-with-three-answers", run: fixed_conda_vs_condu }],
         witnesses: vec![],
